@@ -3,7 +3,7 @@
 // Contracts for package objecttemplate (comment-only; read by /verif's govc, never compiled into the product).
 package objecttemplate
 
-//@ props C18
+//@ props C11,C18
 // a source that is looked up reports "not found without error" only for a missing optional source; every such
 // case is counted
 //@ func package-operator.run/internal/controllers/objecttemplate.(*templateReconciler).lookupUncached
@@ -13,6 +13,8 @@ package objecttemplate
 //@   ensures gomem_unchanged()
 
 //@ func package-operator.run/internal/controllers/objecttemplate.(*templateReconciler).getSourceObject
+// the preflight checks see the source with the namespace its reference declares (possibly none)
+//@   at preflightChecker.Check#1 assert [C11,C18] ns(arg2) == src.Namespace
 //@   sink AddDynamicCacheLabel:Writer.Patch#1 requires [C18] true
 //@   ghost missingOpt() := old(missingOpt()) + (if err == nil && !found then 1 else 0)
 //@   ensures [C18] missingOpt() == old(missingOpt()) + (if err == nil && !found then 1 else 0)
@@ -38,6 +40,9 @@ package objecttemplate
 // the rendered object is marked as this pass's output only when rendering and the preflight checks succeeded; for a
 // namespaced ObjectTemplate it is placed in the template's namespace
 //@ func package-operator.run/internal/controllers/objecttemplate.(*templateReconciler).templateObject
+// the preflight checks see the target as it was rendered: its namespace is defaulted to the template's only afterwards
+// (a kind without namespace is looked up for its scope only while the namespace is still empty)
+//@   at preflightChecker.Check#1 assert [C11,C18] ns(arg2) == lastUnmarshalNs()
 //@   ghost tplOK(object) := result == nil
 //@   ghost renderedLbl() := lbl(object)
 //@   ghost renderedLblHas() := lblHas(object)
